@@ -271,7 +271,8 @@ func ZZ_C14_Will() {
 			req.Drop()
 		}
 	}
-	srv.hooks.OnWillPublished = func(ctx context.Context, id string, m *gmqtt.Message) { published++ }
+	var told *gmqtt.Message
+	srv.hooks.OnWillPublished = func(ctx context.Context, id string, m *gmqtt.Message) { published++; told = m }
 	zzrt.Observe("behaviour", behaviour)
 	srv.sendWillLocked(&gmqtt.Message{Topic: "w", QoS: 1, Payload: []byte("orig")}, "c1")
 	zzrt.Assert(calls == 1, "will-hook-fires-exactly-once")
@@ -293,6 +294,8 @@ func ZZ_C14_Will() {
 	}
 	if behaviour != 3 {
 		zzrt.Assert(published == 1, "will-published-hook-fires-once")
+		// the notification is about the will that was published, not the one registered
+		zzrt.Assert(told != nil && len(got) == 1 && told.Topic == got[0].Topic && string(told.Payload) == string(got[0].Payload), "will-published-hook-is-told-the-published-will")
 	}
 }
 
